@@ -268,6 +268,20 @@ type c18Case struct {
 	Docs       []c18Doc       `json:"docs"`
 	Revs       []c18Rev       `json:"pushes"` // in push order (same order for R and F)
 	Principals []c18Principal `json:"principals"`
+	// which principals are loaded (read through GET _user/_role, users also authenticate once) and when.
+	// Loading computes and stores a principal's channels / roles; a document write afterwards invalidates only
+	// what it changes (channels or roles), so what is pending at resync time depends on this schedule.
+	LateFrom  int      `json:"late_from"`                 // pushes[late_from:] are made after the early load
+	LoadEarly []string `json:"loaded_before_late_pushes"` // loaded between pushes[:late_from] and pushes[late_from:]
+	LoadLate  []string `json:"loaded_before_resync"`      // loaded after the last push, before the sync function changes
+}
+
+func (c *c18Case) principalNames() []string {
+	var out []string
+	for _, p := range c.Principals {
+		out = append(out, p.Name)
+	}
+	return out
 }
 
 func (c *c18Case) doc(id string) *c18Doc {
@@ -371,6 +385,39 @@ func c18GenCase(r *vlib.Rand, idx int) *c18Case {
 	if r.Chance(1, 4) {
 		c.Principals[2].Roles = []string{"r1"}
 	}
+
+	// load schedule and late writes (drawn from a forked generator: the corpus above does not depend on them)
+	lr := r.Fork(0xC18A)
+	c.LateFrom = lr.Range(len(c.Revs)/3, len(c.Revs))
+	// 0..2 late documents whose bodies can only change role() grants (no channel / access fields)
+	for i, n := 0, lr.Intn(3); i < n; i++ {
+		id := fmt.Sprintf("l%d", i)
+		b := map[string]any{"m": fmt.Sprintf("%s/1-a#%d", id, idx), "k": lr.Intn(3), "ru": vlib.Pick(lr, c18Users[:3]), "rr": vlib.Pick(lr, c18Roles)}
+		if lr.Bool() {
+			b["u"] = vlib.Pick(lr, c18Users[:3])
+		}
+		d, q := c18BuildDoc(id, "live1", []map[string]any{b})
+		c.Docs = append(c.Docs, d)
+		c.Revs = append(c.Revs, q...)
+	}
+	subset := func(weights [3]int) []string { // none / some / all
+		all := c.principalNames()
+		switch x := lr.Intn(weights[0] + weights[1] + weights[2]); {
+		case x < weights[0]:
+			return []string{}
+		case x < weights[0]+weights[1]:
+			out := []string{}
+			for _, n := range all {
+				if lr.Bool() {
+					out = append(out, n)
+				}
+			}
+			return out
+		}
+		return all
+	}
+	c.LoadEarly = subset([3]int{1, 2, 2})
+	c.LoadLate = subset([3]int{2, 2, 1})
 	return c
 }
 
@@ -420,6 +467,12 @@ func c18FixedCases(base int) []*c18Case {
 			c.Docs = append(c.Docs, doc)
 			c.Revs = append(c.Revs, q...)
 		}
+		// default schedule of the fixed histories: everything pushed, then every principal loaded
+		c.LateFrom, c.LoadEarly, c.LoadLate = len(c.Revs), []string{}, c.principalNames()
+		return c
+	}
+	sched := func(c *c18Case, lateFrom int, early, late []string) *c18Case {
+		c.LateFrom, c.LoadEarly, c.LoadLate = lateFrom, early, late
 		return c
 	}
 	none := []string{}
@@ -438,6 +491,8 @@ func c18FixedCases(base int) []*c18Case {
 	fGrant := c18Fn{Ch: "a", Acc: []string{"u-gc"}, Rol: "none", Rej: "none", Tomb: "none"}
 	fGrantTomb := fGrant
 	fGrantTomb.Tomb = "old-grant"
+	fGrantRole := c18Fn{Ch: "a", Acc: []string{"u-gc"}, Rol: "ru-rr", Rej: "none", Tomb: "none"}
+	fGrant2Role := c18Fn{Ch: "a", Acc: []string{"u2-gc2"}, Rol: "ru-rr", Rej: "none", Tomb: "none"}
 	return []*c18Case{
 		// role() before the throw: the rejected revision keeps its role grant
 		mk(0, fa, faRej, false, "role-grant-before-throw", dd{"live1", []map[string]any{B("a", "c0", "ru", "u1", "rr", "r1", "k", 1)}}, dd{"live1", []map[string]any{B("a", "c3", "k", 0)}}),
@@ -450,6 +505,16 @@ func c18FixedCases(base int) []*c18Case {
 		// a deletion that grants from oldDoc under f1 only: resync skips the tombstone
 		mk(4, fGrantTomb, fGrant, false, "deletion-grant-clause-removed", dd{"tomb", []map[string]any{B("a", "c0", "u", "u1", "gc", "c1", "k", 0), B()}}, dd{"live1", []map[string]any{B("a", "c1", "k", 0)}}),
 		// control: channel move on a conflicted document whose winner changes too
+		// u1 loaded (channels computed), then a write changes only u1's role() grant (roles invalidated, channels still valid),
+		// u1 not loaded again; f2 moves u1's channel grant: the post-resync invalidation must still reach u1's channels
+		sched(mk(6, fGrantRole, fGrant2Role, false, "grant-moved-while-only-roles-pending", dd{"live1", []map[string]any{B("a", "c0", "u", "u1", "gc", "c1", "u2", "u1", "gc2", "c3", "k", 0)}}, dd{"live1", []map[string]any{B("ru", "u1", "rr", "r1", "k", 0)}}),
+			1, []string{"u1", "u2"}, none),
+		// control: the same, everybody loaded again before the resync
+		sched(mk(7, fGrantRole, fGrant2Role, false, "grant-moved-all-loaded", dd{"live1", []map[string]any{B("a", "c0", "u", "u1", "gc", "c1", "u2", "u1", "gc2", "c3", "k", 0)}}, dd{"live1", []map[string]any{B("ru", "u1", "rr", "r1", "k", 0)}}),
+			1, []string{"u1", "u2"}, []string{"r1", "r2", "u1", "u2", "u3", "u4"}),
+		// nobody ever loaded before the resync
+		sched(mk(8, fGrantRole, fGrant2Role, false, "grant-moved-nobody-loaded", dd{"live1", []map[string]any{B("a", "c0", "u", "u1", "gc", "c1", "u2", "u1", "gc2", "c3", "k", 0)}}, dd{"live1", []map[string]any{B("ru", "u1", "rr", "r1", "k", 0)}}),
+			2, none, none),
 		mk(5, fChA, fChB, false, "channel-move-conflict", dd{"conflict2", []map[string]any{B("a", "c0", "b", "c1", "k", 0), B("a", "c1", "b", "c2", "k", 0), B("a", "c2", "b", "c3", "k", 0)}}, dd{"live3", []map[string]any{B("a", "c3", "b", "c2", "k", 0), B("a", "c3", "b", "c1", "k", 0), B("a", "c0", "b", "c2", "k", 0)}}),
 	}
 }
